@@ -1,4 +1,5 @@
 //! C11 — cube root is the true root rounded as the context dictates, for both signs.
+use props::alpha::*;
 use props::engine::*;
 use props::roots::*;
 use serde_json::json;
@@ -186,6 +187,19 @@ fn main() {
         }
         for s in 0..3i128 {
             delicate_sweep(&run, 3, &Dec { n: r.clone() + 1, s }, 150, &mut t);
+        }
+        t
+    });
+    // S11: radicands whose leading machine word is an exact power m^3 followed by all-ones / single-bit low bits
+    // (alpha::binary_power_heads): a root routine seeded from the leading word starts below the true root
+    let js: Vec<usize> = (10..=tier.pick(200, 200 * 2)).collect();
+    let bh = binary_power_heads(3, &js);
+    let p11: Vec<u64> = vec![1, 12, 20, 25, 30, 45, 100];
+    run.bound("S11_binary_power_heads", json!({"radicands": bh.len(), "low_bit_blocks": format!("{}..={}", js[0], js[js.len() - 1]), "scales": [0, 40, -7], "precisions": p11}));
+    run.par("S11 leading word an exact power", bh.len(), |i| {
+        let mut t = Tally::default();
+        for s in [0i128, 40, -7] {
+            sweep(&run, 3, &Dec { n: bh[i].clone(), s }, &p11, false, &mut t);
         }
         t
     });
